@@ -97,6 +97,8 @@ def judge(ctx, case, o, stats):
     exp = case["exp"]
     probe = case.get("probe", "?")
     kinds = "+".join(sorted(kinds_of(case) - {"StringRef"})) if probe == "builder" else probe
+    if probe == "wide":
+        kinds = "wide%d" % sum(1 for c in case["calls"] if c["op"] == "add" and c["u"] == 1 and c["p"] == 1)
     if case.get("mode") == "incremental":
         kinds += ":incremental"
     if o is None or "outcome" in o:
@@ -156,11 +158,14 @@ def run(ctx):
     s = ctx.seed % 89
     if q:
         runs = [("kinds", dict(Mode='"kinds"', MaxS=0, MaxM=0, MaxUnits=2, Salt=s, EmitMod=1, AllPlacements="FALSE")),
-                ("builder", dict(Mode='"builder"', MaxS=3, MaxM=1, MaxUnits=2, Salt=s, EmitMod=1, AllPlacements="FALSE"))]
+                ("builder", dict(Mode='"builder"', MaxS=3, MaxM=1, MaxUnits=2, Salt=s, EmitMod=1, AllPlacements="FALSE")),
+                ("wide", dict(Mode='"wide"', MaxS=0, MaxM=0, MaxUnits=2, Salt=s, EmitMod=1, AllPlacements="FALSE"))]
     else:
         runs = [("kinds", dict(Mode='"kinds"', MaxS=0, MaxM=0, MaxUnits=2, Salt=s, EmitMod=1, AllPlacements="TRUE")),
                 ("builder", dict(Mode='"builder"', MaxS=4, MaxM=1, MaxUnits=2, Salt=s, EmitMod=1, AllPlacements="FALSE")),
-                ("builder", dict(Mode='"builder"', MaxS=3, MaxM=2, MaxUnits=2, Salt=s + 1, EmitMod=5, AllPlacements="FALSE"))]
+                ("builder", dict(Mode='"builder"', MaxS=3, MaxM=2, MaxUnits=2, Salt=s + 1, EmitMod=5, AllPlacements="FALSE")),
+                ("wide", dict(Mode='"wide"', MaxS=0, MaxM=0, MaxUnits=2, Salt=s, EmitMod=1, AllPlacements="FALSE")),
+                ("wide", dict(Mode='"wide"', MaxS=0, MaxM=0, MaxUnits=2, Salt=s + 1, EmitMod=1, AllPlacements="FALSE"))]
     stats = {"exp_err": 0, "same": 0, "bytes_equal": 0}
     seen_kinds = set()
     for ri, (name, consts) in enumerate(runs):
